@@ -910,7 +910,48 @@ func c13c(c *Ctx) {
 	c.Check(n > 0, "parseConstant/scan-loop", c.W.FuncPos(fn), "scan loop found", "cannot find the loop that collects the constant's value")
 }
 
+// c13dTable: the constants table is consulted by tryReplaceWithConstant and by the definition
+// parser only, and is never replaced or emptied while parsing (a direct p.constants[...] lookup
+// for a label or a command name would substitute where C13.b, which follows the helper, cannot see)
+func c13dTable(c *Ctx) {
+	n := 0
+	for _, fn := range c.W.FuncsOf("parser") {
+		if isTestFunc(c.W, fn) {
+			continue
+		}
+		allowed := fn.Name() == "tryReplaceWithConstant" || fn.Name() == "parseConstant"
+		instrs(fn, func(in ssa.Instruction) {
+			switch x := in.(type) {
+			case *ssa.Lookup:
+				if mapRootField(x.X) == "Parser.constants" {
+					n++
+					c.Check(allowed, fmt.Sprintf("constants-table/read/%s#%d", c.W.FuncKey(fn), n), c.W.Pos(x.Pos()), "the constants table is read by the substitution helper / the definition parser", fn.Name()+" looks up the constants table itself: a substitution outside tryReplaceWithConstant is invisible to the rules that follow that helper")
+				}
+			case *ssa.Range:
+				if mapRootField(x.X) == "Parser.constants" {
+					n++
+					c.Check(allowed, fmt.Sprintf("constants-table/read/%s#%d", c.W.FuncKey(fn), n), c.W.Pos(x.Pos()), "the constants table is read by the substitution helper / the definition parser", fn.Name()+" ranges over the constants table")
+				}
+			case *ssa.Store:
+				if _, t, f, ok := fieldAddrOf(x.Addr); ok && typeIs(t, "parser", "Parser") && f == "constants" {
+					if _, fresh := rootValue(x.Addr).(*ssa.Alloc); !fresh {
+						n++
+						c.Bad(fmt.Sprintf("constants-table/replaced/%s#%d", c.W.FuncKey(fn), n), c.W.Pos(x.Pos()), fn.Name()+" replaces the constants table while parsing: constants defined before would be forgotten (and could be redefined)")
+					}
+				}
+			case ssa.CallInstruction:
+				if calleeName(x) == "builtin:delete" && mapRootField(x.Common().Args[0]) == "Parser.constants" {
+					n++
+					c.Bad(fmt.Sprintf("constants-table/deleted/%s#%d", c.W.FuncKey(fn), n), c.W.Pos(x.Pos()), fn.Name()+" deletes from the constants table")
+				}
+			}
+		})
+	}
+	c.Check(n >= 2, "constants-table/uses", "-", fmt.Sprintf("%d direct uses of the constants table", n), fmt.Sprintf("expected at least 2 direct uses of the constants table, found %d", n))
+}
+
 func c13d(c *Ctx) {
+	c13dTable(c)
 	fn := c.Fn("parser.Parser.tryReplaceWithConstant")
 	if fn == nil {
 		return
